@@ -19,7 +19,7 @@ theorem noNL_iff (l : List Char) : NoNL l ↔ NoCh '\n' l := Iff.rfl
 structure Safe (x : Char) : Prop where
   notIdent : isIdentChar x = false
   notMinus : x ≠ '-'
-  lits : ∀ s ∈ [" ", " = ", ";", "", ".", "repeated ", "optional ", "message", "enum", " {", " {}", "}"],
+  lits : ∀ s ∈ [" ", " = ", ";", "", ".", "repeated ", "optional ", "message", "enum", " {", " {}", "}", "rpc ", "(", ") returns (", ")", "stream ", "service"],
     (String.toList s).all (· != x) = true
 
 theorem safe_nl : Safe '\n' := ⟨by decide, by decide, by decide⟩
@@ -36,7 +36,7 @@ theorem NoCh.append {a b : List Char} (ha : NoCh x a) (hb : NoCh x b) : NoCh x (
   · exact hb c h
 
 theorem noCh_lit (s : String)
-    (h : s ∈ [" ", " = ", ";", "", ".", "repeated ", "optional ", "message", "enum", " {", " {}", "}"]) :
+    (h : s ∈ [" ", " = ", ";", "", ".", "repeated ", "optional ", "message", "enum", " {", " {}", "}", "rpc ", "(", ") returns (", ")", "stream ", "service"]) :
     NoCh x s.toList := by
   intro c hc he
   have := hx.lits s h
